@@ -1236,6 +1236,9 @@ sf_command	(SNDFILE *sndfile, int command, void *data, int datasize)
 		case SFC_FILE_TRUNCATE :
 			if (psf->file.mode != SFM_WRITE && psf->file.mode != SFM_RDWR)
 				return SF_TRUE ;
+			/* Cannot be done through SF_VIRTUAL_IO : fail before the frame count is touched. */
+			if (psf->virtual_io)
+				return SF_TRUE ;
 			if (datasize != sizeof (sf_count_t))
 				return SF_TRUE ;
 			if (data == NULL || datasize != sizeof (sf_count_t))
